@@ -544,4 +544,15 @@ class C20(CompSpec):
         return None
 
 
+# slices added during validation (DESIGN 10.5): appended to the rules so that the evidence files describe them
+_MORE = {
+    C07: "; the simulated submissions include parameters given as submit-jobs options and resubmissions with changed group parameters (resubmit-jobs -s), judged by the new groups",
+    C08: "; slices: a slow lock holder (a stall beyond the 300-s lock timeout inside a results-lock hold: waiting appends / collections must fail loudly, every append that returned is in the consolidated file exactly once), output directories with glob metacharacters",
+    C10: "; simulated submissions with refused resubmit-jobs / cancel-jobs on the holder's host and with submit-jobs started twice at once for one new output directory; a slice of histories with a writer killed in the middle of a write",
+    C19: "; a quarter of the scenarios use unnamed jobs (JADE names them str(job_id))",
+    C20: "; in half of the simulated submissions the jobs log events themselves (own events.log under job-outputs, kept open while they run): what they logged is the ground truth",
+}
+for _c, _t in _MORE.items():
+    _c.rule = _c.rule + _t
+
 SPECS = {c.prop: c for c in (C07, C08, C10, C17, C18, C19, C20)}
